@@ -7,6 +7,7 @@ import (
 	"io"
 	"os"
 	"os/exec"
+	"reflect"
 	"runtime"
 	"runtime/debug"
 	"strconv"
@@ -110,6 +111,29 @@ func serve(f []string) string {
 				class, res = "err", "res=err"
 				_ = err
 			}
+		default:
+			// "mbrt:<lbs>:<pbs>" = mbr.Read(d, lbs, pbs); "partt:<pbs>" = partition.Read(d, lss, pbs):
+			// the Table level (Model/MbrTable.lean), sector sizes as stamped on the table and its partitions
+			var a, b int
+			if n, _ := fmt.Sscanf(reader, "mbrt:%d:%d", &a, &b); n == 2 {
+				t, err := mbr.Read(d, a, b)
+				if err != nil {
+					class, res = "err", "res=err"
+				} else {
+					res = "res=ok\t" + mbrTableStr(t)
+				}
+			} else if n, _ := fmt.Sscanf(reader, "partt:%d", &b); n == 1 {
+				t, err := partition.Read(d, lss, b)
+				switch x := t.(type) {
+				case *gpt.Table:
+					res = "res=ok\tkind=gpt\t" + gc.LibTableStr(x)
+				case *mbr.Table:
+					res = "res=ok\tkind=mbr\t" + mbrTableStr(x)
+				default:
+					class, res = "err", "res=err"
+					_ = err
+				}
+			}
 		}
 	}()
 	runtime.ReadMemStats(&m1)
@@ -124,6 +148,36 @@ func mbrStr(t *mbr.Table) string {
 		rs[i] = fmt.Sprintf("%d:%d:%d", p.Index, p.GetStart(), p.GetSize())
 	}
 	return fmt.Sprintf("sig=%d\tparts=%s\tranges=%s", v, gc.MbrPartsStr(t.Partitions), strings.Join(rs, ";"))
+}
+
+func privInt(p any, name string) int64 {
+	v := reflect.ValueOf(p)
+	if v.Kind() == reflect.Ptr {
+		v = v.Elem()
+	}
+	f := v.FieldByName(name)
+	if !f.IsValid() {
+		return -1
+	}
+	return f.Int()
+}
+
+// mbrTableStr: the table's sector sizes, the partitions, and per partition index:GetStart:GetSize:lss:pss
+// (the private sector sizes with the defaults sectorSizes() applies) - the impl side of mbr.readt / part.readt.
+func mbrTableStr(t *mbr.Table) string {
+	rs := make([]string, len(t.Partitions))
+	for i, p := range t.Partitions {
+		l, ph := privInt(p, "logicalSectorSize"), privInt(p, "physicalSectorSize")
+		if l == 0 {
+			l = 512
+		}
+		if ph == 0 {
+			ph = 512
+		}
+		rs[i] = fmt.Sprintf("%d:%d:%d:%d:%d", p.Index, p.GetStart(), p.GetSize(), l, ph)
+	}
+	return fmt.Sprintf("lss=%d\tpss=%d\tparts=%s\tranges=%s", t.LogicalSectorSize, t.PhysicalSectorSize,
+		gc.MbrPartsStr(t.Partitions), strings.Join(rs, ";"))
 }
 
 // Answer is what the parent learns about one reader call.
